@@ -49,6 +49,12 @@ def gen_cases(tier: str, rng: random.Random):
         l1 = L.next_level(l0, L.UNARY, ['Conjunction', 'Biconditional'], L.QUANTS, bv)
     for s in l0:
         add(s, 'exh-depth0')
+    # towers of negations (un-negation strips exactly one) over an atom, a predication and a quantified sentence
+    for base in (['A', 0, 0], ['P', [0, 0, 1], [['c', 0, 0]]], ['Q', 'Existential', [0, 0], ['P', [0, 0, 1], [['v', 0, 0]]]]):
+        t_ = base
+        for _k in range(6):
+            t_ = ['O', 'Negation', [t_]]
+            add(t_, 'negation-tower', pairs=ALL_PAIRS[:4])
     for s in l1:
         add(s, 'exh-depth1')
     # depth 2, exhaustive over a reduced alphabet (1 constant, 1 variable in the leaves,
